@@ -22,9 +22,10 @@ from fractions import Fraction
 
 VERIF = os.path.dirname(os.path.dirname(os.path.abspath(__file__)))
 COQ = os.path.join(VERIF, 'coq')
-CASES = os.path.join(COQ, 'cases')
-EVIDENCE = os.path.join(VERIF, 'evidence')
-REPLAYS = os.path.join(VERIF, 'replays')
+CASES = os.path.join(COQ, 'cases', 'p%d' % os.getpid())
+_OUT = os.environ.get('VERIF_OUT', VERIF)   # scratch runs against a mutated tree write elsewhere
+EVIDENCE = os.path.join(_OUT, 'evidence')
+REPLAYS = os.path.join(_OUT, 'replays')
 CACHE = os.path.join(VERIF, '.cache')
 REPO = os.environ.get('VERIF_REPO', '/repo')
 COQC_TIMEOUT = int(os.environ.get('VERIF_COQC_TIMEOUT', '900'))
@@ -249,8 +250,8 @@ def run_case_file(name, header, exprs, timeout=None):
         fh.write('Definition results :=\n  [ ' + '\n  ; '.join(exprs) + ' ].\n')
         fh.write('Eval vm_compute in results.\n')
     t = timeout or COQC_TIMEOUT
-    rc, out = sh('ulimit -s unlimited 2>/dev/null; timeout %d coqc -Q .. TV -w -all %s.v'
-                 % (t, name), cwd=CASES, timeout=t + 30)
+    rc, out = sh('ulimit -s unlimited 2>/dev/null; timeout %d coqc -Q %s TV -w -all %s.v'
+                 % (t, COQ, name), cwd=CASES, timeout=t + 30)
     if rc != 0:
         raise RuntimeError('coqc failed on %s:\n%s' % (path, out[-3000:]))
     return parse_coq_value(out)
@@ -275,14 +276,7 @@ def run_cases(tag, header, exprs, shard=100, jobs=16, timeout=None):
 
 
 def clean_cases(tag=None):
-    if not os.path.isdir(CASES):
-        return
-    for f in os.listdir(CASES):
-        if tag is None or f.startswith(tag):
-            try:
-                os.remove(os.path.join(CASES, f))
-            except OSError:
-                pass
+    shutil.rmtree(CASES, ignore_errors=True)
 
 
 HEADER_Q = ('From Coq Require Import ZArith QArith List String.\n'
